@@ -389,3 +389,36 @@ def check_proofs(res, pid, targets, props_file, search=None, timeout=1500):
         return False
     res.discharged = len(names)
     return True
+
+
+# ---------------------------------------------------------------------------------------
+# Output canonicalisation helpers
+# ---------------------------------------------------------------------------------------
+_ID_RE = re.compile(r"\bM[0-9a-z]{7}-(\d+)")
+
+
+def norm_ids(s):
+    """generated ids have a random per-call prefix: rename to ID-<n>"""
+    return _ID_RE.sub(r"ID-\1", s) if isinstance(s, str) else s
+
+
+def outcome(x):
+    """harness result -> ('ok', payload) | ('err', first line) | ('panic', msg)"""
+    if "ok" in x:
+        return ("ok", x["ok"])
+    if "err" in x:
+        return ("err", x["err"].splitlines()[0] if x["err"] else "")
+    if "panic" in x:
+        return ("panic", x["panic"])
+    return ("other", json.dumps(x))
+
+
+def parse_coq_nlist(log_text, after="="):
+    """parse the first `= [a; b; ...]%N` (or `= []`) list of numbers printed by an Eval in a coqc log"""
+    m = re.search(r"=\s*\[([^\]]*)\]", log_text)
+    if not m:
+        return None
+    body = m.group(1).strip()
+    if not body:
+        return []
+    return [int(re.sub(r"%N", "", t).strip()) for t in body.replace("\n", " ").split(";") if t.strip()]
